@@ -25,6 +25,11 @@ META = dict(
         "H-json-prefix: a strict prefix of the JSON text of a dictionary does not parse (used as "
         "'a description being rewritten is Torn'); exercised here by the torn variants",
         "atomicity of os.truncate / unlink; line-level tracing as the observable granularity",
+        "translator gen/py2v.py (tie T for the ORDER of file effects): Gen_effects.v holds the control "
+        "skeletons of Array._update_arrayinfo / _update_len / _append / iterappend, truncate_array, "
+        "RaggedArray._append / _update_lens / iterappend and truncate_raggedarray regenerated from the "
+        "source on every run; the reading of the vocabulary calls as effect kinds (EffectOrder.aprim, "
+        "EffectOrderR.rprim) and the over-approximating skeleton semantics Skel.runs are trusted",
     ],
     assumptions=["torn data writes expose prefixes of the written bytes (no reordering of blocks)"],
 )
